@@ -373,3 +373,71 @@ Proof.
   - exact (count_exact_lemma matches fs p rows H1 H3 H4 H5).
   - exact (count_independent_of_paging_lemma matches fs p p' rows H1 H2 H3 H4 H5).
 Qed.
+
+(* ---- paging parameters at the numeric extremes ---------------------------------------------------- *)
+(* clamp: a limit that is at least the number of rows left after the skip keeps all of them, i.e. it
+   is the same as no limit - whatever the size of the number (MaxInt64 - 1 as well as n) *)
+Lemma page_limit_clamp {A : Type} (sk : option Z) (k : Z) (l : list A) :
+  Z.of_nat (length l) - spec_skip {| pg_skip := sk; pg_limit := Some k |} <= k ->
+  page {| pg_skip := sk; pg_limit := Some k |} l = page {| pg_skip := sk; pg_limit := limit_none |} l.
+Proof.
+  intros H. unfold page.
+  change (spec_skip {| pg_skip := sk; pg_limit := limit_none |})
+    with (spec_skip {| pg_skip := sk; pg_limit := Some k |}).
+  pose proof (spec_skip_nonneg {| pg_skip := sk; pg_limit := Some k |}) as Ho.
+  set (o := spec_skip {| pg_skip := sk; pg_limit := Some k |}) in *.
+  unfold spec_limit, limit_none. simpl.
+  destruct (k <? 0) eqn:E; [reflexivity|]. apply Z.ltb_ge in E.
+  apply takeZ_all. rewrite dropZ_length by exact Ho. lia.
+Qed.
+
+(* a skip that is at least the number of rows leaves nothing, whatever the limit *)
+Lemma page_skip_beyond {A : Type} (p : paging) (l : list A) :
+  Z.of_nat (length l) <= spec_skip p -> page p l = [].
+Proof.
+  intros H. unfold page. rewrite (dropZ_all l) by exact H.
+  destruct (spec_limit p); reflexivity.
+Qed.
+
+Lemma wf_paging_limit_none sk k :
+  wf_paging {| pg_skip := sk; pg_limit := Some k |} -> wf_paging {| pg_skip := sk; pg_limit := limit_none |}.
+Proof.
+  intros [Hs _]. constructor; [exact Hs|]. simpl. intros l E. inversion E; subst.
+  unfold in_int64, min_int64, max_int64. lia.
+Qed.
+
+(* QueryIds and the paged iteration: an explicit limit that is at least the number of matching rows
+   (however close to MaxInt64, with whatever skip) answers exactly like `limit none` *)
+Lemma huge_limit_is_unbounded_lemma : forall (matches : row -> bool) (fs : list sort_field)
+                                             (sk : option Z) (k : Z) (rows : list row),
+  wf_paging {| pg_skip := sk; pg_limit := Some k |} -> id_sorted rows -> rows_ok rows ->
+  Z.of_nat (length rows) <= max_int64 ->
+  Z.of_nat (length (filter matches rows)) <= k ->
+  query_ids matches fs {| pg_skip := sk; pg_limit := Some k |} rows
+    = query_ids matches fs {| pg_skip := sk; pg_limit := limit_none |} rows /\
+  iterate_ids matches {| pg_skip := sk; pg_limit := Some k |} rows
+    = iterate_ids matches {| pg_skip := sk; pg_limit := limit_none |} rows.
+Proof.
+  intros matches fs sk k rows Hwf Hs Hok Hlen Hk.
+  pose proof (wf_paging_limit_none sk k Hwf) as Hwf'.
+  pose proof (spec_skip_nonneg {| pg_skip := sk; pg_limit := Some k |}) as Hsk.
+  split.
+  - rewrite !query_ids_exact_lemma by assumption. unfold query_spec. f_equal. f_equal.
+    apply page_limit_clamp. rewrite sort_by_length. lia.
+  - rewrite !iterate_paged_exact_lemma by assumption. f_equal.
+    apply page_limit_clamp. lia.
+Qed.
+
+(* a skip that reaches the number of matching rows returns no ids and still the full count *)
+Lemma skip_beyond_count_lemma : forall (matches : row -> bool) (fs : list sort_field)
+                                       (p : paging) (rows : list row),
+  wf_paging p -> id_sorted rows -> rows_ok rows -> Z.of_nat (length rows) <= max_int64 ->
+  Z.of_nat (length (filter matches rows)) <= spec_skip p ->
+  query_ids matches fs p rows = ([], Z.of_nat (length (filter matches rows))) /\
+  iterate_ids matches p rows = [].
+Proof.
+  intros matches fs p rows Hwf Hs Hok Hlen Hk. split.
+  - rewrite query_ids_exact_lemma by assumption. unfold query_spec.
+    rewrite page_skip_beyond; [reflexivity|]. rewrite sort_by_length. exact Hk.
+  - rewrite iterate_paged_exact_lemma by assumption. rewrite page_skip_beyond; [reflexivity | exact Hk].
+Qed.
